@@ -1,17 +1,21 @@
 /-
-Line-protocol engine `decrypt` (C12).
-ops (t = thread id = one received packet being handled by one goroutine):
-  reset <windowLength>                 -> ok
-  pkt <t> <ctr> <kind>                 kind: valid | forged | relabel | relay | relayforged   -> ok
+Line-protocol engine `decrypt` (C12). Two tunnels: 0 = end-to-end tunnel, 1 = relay tunnel.
+ops (t = thread id = one received UDP packet being handled by one goroutine):
+  reset <windowLength>                 -> ok          (both tunnels get a fresh window of that length)
+  pkt <t> <ctr> <kind>                 one layer on tunnel 0; kind: valid | forged | relabel (Decrypt),
+                                       relay | relayforged (VerifyRelay)                          -> ok
+  npkt <t> <ctrRelay> <ctrInner> <kind>  relay envelope on tunnel 1 carrying a direct packet for tunnel 0
+                                       (VerifyRelay, then readOutsidePackets recurses into Decrypt);
+                                       kind: ok | outerforged | innerforged                       -> ok
   step <t>   next atomic step of t     -> check:ok | check:seen | auth:ok | auth:fail | delivered | update:seen | noop
-  full <t>   the real Decrypt / VerifyRelay as one uninterrupted call (thread must not have started)
-                                       -> delivered | seen | auth:fail | noop
+  full <t>   all layers as uninterrupted calls (thread must not have started)
+                                       -> delivered | seen@<layer> | auth:fail@<layer> | noop
   burst <t0> <from> <n>                n authentic direct packets with counters from, from+1, … handled one
                                        after the other by threads t0, t0+1, … (each an uninterrupted Decrypt)
                                        -> `delivered=<k>`
-  dump                                 -> `<current> <bitmap words hex>`
-Oracle: the list of counters already delivered on this tunnel; delivering one of them again, or
-delivering a packet that does not authenticate, violates the property.
+  dump [<tunnel>]                      -> `<current> <bitmap words hex>` (default tunnel 0)
+Oracle: the (tunnel, counter) pairs already acted upon; acting on one of them again, or on a layer that
+does not authenticate, violates the property.
 -/
 import Nebula.Driver.Common
 import Nebula.Model.Decrypt
@@ -22,24 +26,50 @@ open Nebula.Driver Nebula.Bits Nebula.Decrypt
 
 structure S where
   m : Option State := none
-  pk : Nat → Pkt := fun _ => { ctr := 0#64, authOK := false }
-  known : Nat → Bool := fun _ => false
-  /-- counters delivered so far (spec state) -/
-  seen : List Nat := []
+  base : Option Bits := none
+  pk : Nat → Pkt := fun _ => []
+  /-- (tunnel, counter) acted upon so far (spec state) -/
+  seen : List (Nat × Nat) := []
+
+/-- same state with the window table re-tabulated (the engine only uses tunnels 0 and 1; every other
+tunnel still has the window both started with), so that lookups do not walk a chain of updates -/
+def flat (base : Bits) (m : State) : State :=
+  let w0 := m.win 0
+  let w1 := m.win 1
+  { m with win := fun T => if T = 0 then w0 else if T = 1 then w1 else base }
 
 def resStr : StepResult → String
   | .noop => "noop" | .checkOK => "check:ok" | .checkSeen => "check:seen" | .authOK => "auth:ok"
   | .authFail => "auth:fail" | .delivered => "delivered" | .updateSeen => "update:seen"
 
-def deliverVerdict (s : S) (t : Nat) (impl : String) : String :=
-  if impl != "delivered" then "ok" else
-  let p := s.pk t
-  if !p.authOK then s!"bad unauthenticated-delivered ctr={p.ctr.toNat}"
-  else if s.seen.contains p.ctr.toNat then s!"bad delivered-twice ctr={p.ctr.toNat}"
+def layerVerdict (seen : List (Nat × Nat)) (ly : Layer) : String :=
+  if !ly.authOK then s!"bad unauthenticated-delivered tunnel={ly.tunnel} ctr={ly.ctr.toNat}"
+  else if seen.contains (ly.tunnel, ly.ctr.toNat) then s!"bad delivered-twice tunnel={ly.tunnel} ctr={ly.ctr.toNat}"
   else "ok"
 
-def note (s : S) (t : Nat) (r : StepResult) : S :=
-  if r == .delivered then { s with seen := (s.pk t).ctr.toNat :: s.seen } else s
+/-- verdict on the claim that the first `n` layers of `p` were acted upon -/
+def layersVerdict (seen : List (Nat × Nat)) (p : Pkt) (n : Nat) : String :=
+  ((p.take n).foldl (fun (a : String × List (Nat × Nat)) ly =>
+    if a.1 != "ok" then a else (layerVerdict a.2 ly, (ly.tunnel, ly.ctr.toNat) :: a.2)) ("ok", seen)).1
+
+def note (s : S) (ly : Layer) (r : StepResult) : S :=
+  if r == .delivered then { s with seen := (ly.tunnel, ly.ctr.toNat) :: s.seen } else s
+
+/-- run thread `t` until it stops; returns the outcome string of `full` -/
+def runFull (pk : Nat → Pkt) (s : S) (m : State) (t : Nat) (fuel : Nat) : S × State × String :=
+  match fuel with
+  | 0 => (s, m, "delivered")
+  | fuel + 1 =>
+    let li := (m.pc t).1
+    match (pk t)[li]? with
+    | none => (s, m, "delivered")
+    | some ly =>
+      let (m', r) := Nebula.Decrypt.step pk m t
+      let s' := note s ly r
+      match r with
+      | .checkSeen | .updateSeen => (s', m', s!"seen@{li}")
+      | .authFail => (s', m', s!"auth:fail@{li}")
+      | _ => runFull pk s' m' t fuel
 
 def step (s : S) (args : List String) (impl : String) : S × Out :=
   match args with
@@ -47,7 +77,7 @@ def step (s : S) (args : List String) (impl : String) : S × Out :=
     match natArg len with
     | some n =>
       match (if n < 2 ^ 64 then newBits (BitVec.ofNat 64 n) else none) with
-      | some b => ({ m := some (init b) }, { model := "ok", tag := "triv:reset" })
+      | some b => ({ m := some (init (fun _ => b)), base := some b }, { model := "ok", tag := "triv:reset" })
       | none => (s, badOp)
     | none => (s, badOp)
   | ["pkt", t, c, kind] =>
@@ -55,56 +85,73 @@ def step (s : S) (args : List String) (impl : String) : S × Out :=
     | some t, some c =>
       if c ≥ 2 ^ 64 then (s, badOp) else
       let ok := kind == "valid" || kind == "relay"
-      ({ s with pk := fun t' => if t' = t then { ctr := BitVec.ofNat 64 c, authOK := ok } else s.pk t',
-                known := fun t' => t' = t || s.known t' },
+      ({ s with pk := fun t' => if t' = t then [{ tunnel := 0, ctr := BitVec.ofNat 64 c, authOK := ok }] else s.pk t' },
        { model := "ok", tag := "triv:pkt" })
     | _, _ => (s, badOp)
+  | ["npkt", t, cr, ce, kind] =>
+    match natArg t, natArg cr, natArg ce with
+    | some t, some cr, some ce =>
+      if cr ≥ 2 ^ 64 || ce ≥ 2 ^ 64 then (s, badOp) else
+      let p : Pkt := [{ tunnel := 1, ctr := BitVec.ofNat 64 cr, authOK := kind != "outerforged" },
+                      { tunnel := 0, ctr := BitVec.ofNat 64 ce, authOK := kind != "innerforged" }]
+      ({ s with pk := fun t' => if t' = t then p else s.pk t' }, { model := "ok", tag := "triv:npkt" })
+    | _, _, _ => (s, badOp)
   | ["step", t] =>
     match natArg t, s.m with
     | some t, some m =>
-      if !s.known t then (s, badOp) else
-      let (m', r) := Nebula.Decrypt.step s.pk m t
-      let dup := s.seen.contains (s.pk t).ctr.toNat
-      (note { s with m := some m' } t r,
-       { model := resStr r, verdict := deliverVerdict s t impl,
-         tag := if r == .noop then "triv:noop" else "step:" ++ resStr r ++ (if dup then ":replay" else "") })
+      if (s.pk t).isEmpty then (s, badOp) else
+      let li := (m.pc t).1
+      match (s.pk t)[li]? with
+      | none => (s, { model := "noop", tag := "triv:noop" })
+      | some ly =>
+        let (m', r) := Nebula.Decrypt.step s.pk m t
+        let m' := match s.base with | some b => flat b m' | none => m'
+        let dup := s.seen.contains (ly.tunnel, ly.ctr.toNat)
+        (note { s with m := some m' } ly r,
+         { model := resStr r, verdict := if impl == "delivered" then layerVerdict s.seen ly else "ok",
+           tag := s!"step:{resStr r}" ++ (if (s.pk t).length > 1 then s!":nested{li}" else "") ++ (if dup then ":replay" else "") })
     | _, _ => (s, badOp)
   | ["full", t] =>
     match natArg t, s.m with
     | some t, some m =>
-      if !s.known t then (s, badOp) else
-      if m.pc t != .start then (s, { model := "noop", tag := "triv:noop" }) else
-      let (m1, r1) := Nebula.Decrypt.step s.pk m t
-      let (m2, r2) := if r1 == .checkOK then Nebula.Decrypt.step s.pk m1 t else (m1, r1)
-      let (m3, r3) := if r2 == .authOK then Nebula.Decrypt.step s.pk m2 t else (m2, r2)
-      let out := match r3 with
-        | .delivered => "delivered"
-        | .authFail => "auth:fail"
-        | _ => "seen"
-      let dup := s.seen.contains (s.pk t).ctr.toNat
-      (note { s with m := some m3 } t r3,
-       { model := out, verdict := deliverVerdict s t impl,
-         tag := "full:" ++ out ++ (if dup then ":replay" else "") })
+      if (s.pk t).isEmpty then (s, badOp) else
+      if m.pc t != (0, PC.start) then (s, { model := "noop", tag := "triv:noop" }) else
+      let (s', m', out) := runFull s.pk s m t (3 * (s.pk t).length + 1)
+      let m' := match s.base with | some b => flat b m' | none => m'
+      -- how many layers the implementation claims to have acted upon
+      let claimed : Option Nat :=
+        if impl == "delivered" then some (s.pk t).length
+        else match impl.splitOn "@" with
+          | [_, n] => n.toNat?
+          | _ => none
+      let verdict := match claimed with
+        | some n => layersVerdict s.seen (s.pk t) n
+        | none => if impl == "noop" then "ok" else "bad full-unparsable"
+      let dup := (s.pk t).any (fun ly => s.seen.contains (ly.tunnel, ly.ctr.toNat))
+      ({ s' with m := some m' },
+       { model := out, verdict := verdict,
+         tag := "full:" ++ out ++ (if (s.pk t).length > 1 then ":nested" else "") ++ (if dup then ":replay" else "") })
     | _, _ => (s, badOp)
   | ["burst", t0, from_, n] =>
     match natArg t0, natArg from_, natArg n, s.m with
     | some t0, some f, some n, some m =>
       if f + n > 2 ^ 64 then (s, badOp) else
       let pk' : Nat → Pkt := fun t =>
-        if t0 ≤ t ∧ t < t0 + n then { ctr := BitVec.ofNat 64 (f + (t - t0)), authOK := true } else s.pk t
+        if t0 ≤ t ∧ t < t0 + n then [{ tunnel := 0, ctr := BitVec.ofNat 64 (f + (t - t0)), authOK := true }] else s.pk t
       -- every thread of the burst starts fresh and runs to completion before the next one starts; the
       -- program counters are folded into one range test afterwards (same function, no closure chain)
-      let start : Nat → PC := fun _ => .start
-      let (acc, k, seen') := (List.range n).foldl (fun (a : State × Nat × List Nat) i =>
+      let start : Nat → Nat × PC := fun _ => (0, .start)
+      let (acc, k, seen') := (List.range n).foldl (fun (a : State × Nat × List (Nat × Nat)) i =>
         let (m0, k, seen) := a
         let t := t0 + i
         let (m1, r1) := Nebula.Decrypt.step pk' { m0 with pc := start } t
         let (m2, r2) := if r1 == .checkOK then Nebula.Decrypt.step pk' m1 t else (m1, r1)
         let (m3, r3) := if r2 == .authOK then Nebula.Decrypt.step pk' m2 t else (m2, r2)
-        if r3 == .delivered then (m3, k + 1, (f + i) :: seen) else (m3, k, seen)) (m, 0, s.seen)
-      let m' : State := { acc with pc := fun t => if t0 ≤ t ∧ t < t0 + n then .done else m.pc t }
+        let m3 := match s.base with | some b => flat b m3 | none => m3
+        if r3 == .delivered then (m3, k + 1, (0, f + i) :: seen) else (m3, k, seen)) (m, 0, s.seen)
+      let m' : State := { acc with pc := fun t => if t0 ≤ t ∧ t < t0 + n then (1, .start) else m.pc t }
       -- oracle: at most the counters of the burst that were never delivered before may be delivered
-      let fresh := (List.range n).foldl (fun c i => if s.seen.contains (f + i) then c else c + 1) 0
+      let fresh := (List.range n).foldl (fun c i => if s.seen.contains (0, f + i) then c else c + 1) 0
       let verdict :=
         match impl.splitOn "=" with
         | ["delivered", ks] =>
@@ -112,12 +159,14 @@ def step (s : S) (args : List String) (impl : String) : S × Out :=
           | some ki => if ki > fresh then s!"bad delivered-twice burst from={f} n={n} delivered={ki} fresh={fresh}" else "ok"
           | none => "bad burst-unparsable"
         | _ => "bad burst-unparsable"
-      ({ s with m := some m', pk := pk', known := fun t => (t0 ≤ t && t < t0 + n) || s.known t, seen := seen' },
+      ({ s with m := some m', pk := pk', seen := seen' },
        { model := s!"delivered={k}", verdict := verdict, tag := if k == n then "burst:all" else "burst:some" })
     | _, _, _, _ => (s, badOp)
-  | ["dump"] =>
+  | "dump" :: rest =>
     match s.m with
-    | some m => (s, { model := Bits.dumpStr m.window, tag := "dump" })
+    | some m =>
+      let T := match rest with | [x] => x.toNat?.getD 0 | _ => 0
+      (s, { model := Bits.dumpStr (m.win T), tag := s!"dump{T}" })
     | none => (s, badOp)
   | _ => (s, badOp)
 
